@@ -15,6 +15,19 @@ partial def defPaths (objs : List Obj) (pfx : List Nat) : List (List Nat) :=
     | .defn _ _ => [pfx ++ [i]]
     | .scope _ kids => defPaths kids (pfx ++ [i])).flatten
 
+/-- make primary ids of different sources disjoint -/
+partial def offsetIds (k : Nat) : Obj → Obj
+  | .defn m ws => .defn { m with id := m.id.map (· + k) } ws
+  | .scope m kids => .scope { m with id := m.id.map (· + k) } (kids.map (offsetIds k))
+
+def parseSources (texts : List Str) : R (List (List Obj)) :=
+  (texts.zipIdx.mapM fun (t, i) => (parseObjs t).map (fun os => os.map (offsetIds (1000000 * (i + 1)))))
+
+def envsOfJ (ej fj : J) : Option Envs :=
+  match evalEnvOfJ ej, fmtEnvOfJ fj with
+  | some e, some f => some { eval := e, fmt := f }
+  | _, _ => none
+
 def handle (req : J) : J :=
   match req with
   | .arr (.str "tokv" :: t :: _) =>
@@ -91,6 +104,27 @@ def handle (req : J) : J :=
             | some k, some v => some (resolvePath [] k, v) | _, _ => none)
          | _ => none)
        resJ (fun os => J.arr (os.map Obj.toJ)) (expand fs (resolvePath [] root))
+     | _, _ => .str "bad-request")
+  | .arr [.str "fetch", mt, srcs, diff, ej, fj] =>
+    (match mt.getStr, srcs.getArr, diff.getBool, envsOfJ ej fj with
+     | some mt, some srcs, some diff, some envs =>
+       (match parseObjs mt, parseSources (srcs.filterMap J.getStr) with
+        | .error e, _ => .arr [.str "parse-failed", e.toJ]
+        | _, .error e => .arr [.str "parse-failed", e.toJ]
+        | .ok m, .ok ss =>
+          (match fetchRoot envs diff m ss with
+           | .error e => e.toJ
+           | .ok (r, used) =>
+             let unused := (allDefinitions ss.flatten).filter (fun (d : Str × Meta × List Word) =>
+               match d.2.1.id with | some i => !used.contains i | none => true)
+             okJ (.arr [r.toJ, .arr (unused.map fun d => .arr [J.text d.1, J.optNat d.2.1.line])])))
+     | _, _, _, _ => .str "bad-request")
+  | .arr [.str "extract", mt, ej, fj] =>
+    (match mt.getStr, envsOfJ ej fj with
+     | some mt, some envs =>
+       (match parse mt with
+        | .error e => .arr [.str "parse-failed", e.toJ]
+        | .ok root => resJ PVal.toJ (extractObj envs 1000 root))
      | _, _ => .str "bad-request")
   | _ => .str "bad-op"
 
